@@ -166,15 +166,14 @@ func (n *node) start(snapshot []byte) {
 		defer func() {
 			// Always close children edges
 			n.closeChildEdges()
+			// Handle panic in runF
+			if r := recover(); r != nil {
+				trace := make([]byte, 512)
+				n := runtime.Stack(trace, false)
+				err = fmt.Errorf("%s: Trace:%s", r, string(trace[:n]))
+			}
 			// Propagate error up
 			if err != nil {
-				// Handle panic in runF
-				r := recover()
-				if r != nil {
-					trace := make([]byte, 512)
-					n := runtime.Stack(trace, false)
-					err = fmt.Errorf("%s: Trace:%s", r, string(trace[:n]))
-				}
 				n.abortParentEdges()
 				n.diag.Error("node failed", err)
 
